@@ -583,21 +583,27 @@ def resample(sig, old=1, new=1, order=3, zero=0.):
   threshold = .5 * (order + 1)
   step = old / new
   data = deque([zero] * (order + 1), maxlen=order + 1)
-  data.extend(sig.take(rint(threshold)))
-  idx = int(threshold)
   isig = iter(sig)
-  if isinstance(step, Iterable):
-    step = iter(step)
-    while True:
-      yield lagrange(enumerate(data))(idx)
-      idx += next(step)
-      while idx > threshold:
-        data.append(next(isig))
-        idx -= 1
-  else:
-    while True:
-      yield lagrange(enumerate(data))(idx)
-      idx += step
-      while idx > threshold:
-        data.append(next(isig))
-        idx -= 1
+  first_data = list(it.islice(isig, rint(threshold)))
+  if len(first_data) < rint(threshold): # Not enough data for any output
+    return
+  data.extend(first_data)
+  idx = int(threshold)
+  try:
+    if isinstance(step, Iterable):
+      step = iter(step)
+      while True:
+        yield lagrange(enumerate(data))(idx)
+        idx += next(step)
+        while idx > threshold:
+          data.append(next(isig))
+          idx -= 1
+    else:
+      while True:
+        yield lagrange(enumerate(data))(idx)
+        idx += step
+        while idx > threshold:
+          data.append(next(isig))
+          idx -= 1
+  except StopIteration: # End of the input signal (or of the step stream)
+    return
